@@ -15,7 +15,9 @@ package main
 //
 //	payload: <scenario> <gs:0|1> <obs0> <step>…      step = <line-hex>/<evalbit>/<obs>
 //	obs    : <refs:0|1>~<thread>+<thread>…~<global names>     thread = tid.depth.W
-//	         W = f (not interrogated) | r (interrogated, running) | s<err><atGlobal>.<local names>
+//	         W = f (not interrogated) | r<err><dj> (interrogated, running) | s<err><atGlobal><dj>.<local names>
+//	         (dj: the recorded error's data is accepted by json.Marshal as it is)
+//	payload: conc <gs> <n>   — the concurrent kind (see c16Conc)
 //	result : <class>,<class>,… <still>     class of every command step: ok|error|PANIC|HANG|NOJSON,
 //	         still = class of a following `status`
 //
@@ -28,6 +30,7 @@ import (
 	goparser "go/parser"
 	"go/printer"
 	"go/token"
+	"math"
 	"os"
 	"path/filepath"
 	"sort"
@@ -78,6 +81,32 @@ bad(1)
 x.gate()
 `
 
+// errors whose data json.Marshal rejects as it is: an ECAL map, a list holding a map, a non-finite number
+const c16ProgErrMap = `func bad(p) {
+    raise("MyError", "msg", {"code" : 42})
+}
+v := {"code" : 42}
+bad(1)
+x.gate()
+`
+
+const c16ProgErrNest = `func bad(p) {
+    raise("MyError", "msg", [1, {"a" : [2, {"b" : 3}]}])
+}
+v := [1, {"a" : 2}]
+bad(1)
+x.gate()
+`
+
+const c16ProgErrInf = `func bad(p) {
+    raise("MyError", "msg", x.inf())
+}
+v := x.inf()
+w := [x.nan()]
+bad(1)
+x.gate()
+`
+
 const c16ProgShort = `a := 1
 b := [1, 2]
 `
@@ -99,11 +128,22 @@ type c16Case struct {
 }
 
 var c16Cur atomic.Value // *c16Case
+var c16Cases sync.Map    // global scope -> *c16Case, while the case is running
 
 type c16Gate struct{}
 
 func (g *c16Gate) Run(instanceID string, vs parser.Scope, is map[string]interface{}, tid uint64, args []interface{}) (interface{}, error) {
-	c := c16Cur.Load().(*c16Case)
+	// the case this thread belongs to: found through the global scope it runs in (a thread left
+	// behind by an earlier case must not touch the current one)
+	root := vs
+	for root.Parent() != nil {
+		root = root.Parent()
+	}
+	cv, ok := c16Cases.Load(root)
+	if !ok {
+		return nil, nil // the case is over: run to the end
+	}
+	c := cv.(*c16Case)
 	c.mu.Lock()
 	ch := c.gate
 	c.mu.Unlock()
@@ -185,7 +225,7 @@ func (c *c16Case) threadTable() map[string]map[string]interface{} {
 
 // quiesce waits until every started thread is suspended, in the gate or finished.
 func (c *c16Case) quiesce() bool {
-	deadline := time.Now().Add(90 * time.Second)
+	deadline := time.Now().Add(30 * time.Second)
 	stable := 0
 	for {
 		tt := c.threadTable()
@@ -232,6 +272,8 @@ func (c *c16Case) quiesce() bool {
 		}
 		stable = 0
 		if time.Now().After(deadline) {
+			CountRun("quiesce-timeout")
+			fmt.Fprintf(os.Stderr, "c16: no quiescence: threads %v\n", tt)
 			return false
 		}
 		time.Sleep(30 * time.Microsecond)
@@ -266,21 +308,28 @@ func (c *c16Case) observe() string {
 		depth := len(e["callStack"].([]string))
 		w := "f"
 		if r, ok := e["threadRunning"]; ok {
+			errf, dj := "0", "1"
+			if e["error"] != nil {
+				errf = "1"
+				// is the error's data accepted by json.Marshal as it is?
+				if rd, ok := e["error"].(*util.RuntimeErrorWithDetail); ok {
+					if _, jerr := json.Marshal(rd.Data); jerr != nil {
+						dj = "0"
+					}
+				}
+			}
 			if r == true {
-				w = "r"
+				w = "r" + errf + dj
 			} else {
 				tid, _ := strconv.ParseUint(k, 10, 64)
 				d, _ := c.dbg.Describe(tid).(map[string]interface{})
-				errf, glob, locals := "0", "0", "-"
-				if e["error"] != nil {
-					errf = "1"
-				}
+				glob, locals := "0", "-"
 				if depth == 0 {
 					glob = "1" // the programs suspend at depth 0 only in top-level statements
 				} else if vs, ok := d["vs"].(map[string]interface{}); ok {
 					locals = c16Names(vs)
 				}
-				w = "s" + errf + glob + "." + locals
+				w = "s" + errf + glob + dj + "." + locals
 			}
 		}
 		ths = append(ths, fmt.Sprintf("%s.%d.%s", k, depth, w))
@@ -302,6 +351,7 @@ func c16NewCase(scn string, gsGiven bool) *c16Case {
 		c.dbg = interpreter.NewECALDebugger(nil)
 	}
 	c16Cur.Store(c)
+	c16Cases.Store(c.gs, c)
 	switch scn {
 	case "none":
 	case "bos": // suspended by break-on-start at the very first node: references still unset
@@ -323,6 +373,12 @@ func c16NewCase(scn string, gsGiven bool) *c16Case {
 		c.start(1, "nest", c16ProgNest)
 	case "errsusp": // suspended by break-on-error, error recorded
 		c.start(1, "perr", c16ProgErr)
+	case "errmap":
+		c.start(1, "perr", c16ProgErrMap)
+	case "errnest":
+		c.start(1, "perr", c16ProgErrNest)
+	case "errinf":
+		c.start(1, "perr", c16ProgErrInf)
 	case "finished":
 		c.start(1, "short", c16ProgShort)
 	case "finerr":
@@ -341,9 +397,11 @@ func c16NewCase(scn string, gsGiven bool) *c16Case {
 	return c
 }
 
-var c16Scenarios = []string{"none", "bos", "top", "running", "nest1", "nest2", "nest3", "errsusp", "finished", "finerr", "two"}
+var c16Scenarios = []string{"none", "bos", "top", "running", "nest1", "nest2", "nest3", "errsusp", "finished", "finerr", "two",
+	"errmap", "errnest", "errinf"}
 
 func (c *c16Case) end() {
+	c16Cases.Delete(c.gs)
 	c.mu.Lock()
 	close(c.gate)
 	c.mu.Unlock()
@@ -362,7 +420,9 @@ func (c *c16Case) end() {
 		}
 	}
 	for _, e := range c.erps {
-		e.Cron.Stop()
+		// not synchronously: timeutil.Cron.Stop holds the cron's lock while it waits for the cron
+		// goroutine, which takes the same lock after every tick (a rare deadlock in krotik/common)
+		go e.Cron.Stop()
 	}
 }
 
@@ -381,7 +441,7 @@ func (c *c16Case) evalBit(line string) string {
 			}
 		}()
 		erp := interpreter.NewECALRuntimeProvider("InjectValueExpression2", nil, nil)
-		defer erp.Cron.Stop()
+		defer func() { go erp.Cron.Stop() }()
 		tree, err := parser.ParseWithRuntime("InjectValueExpression", expr, erp)
 		if err == nil {
 			if err = tree.Runtime.Validate(); err == nil {
@@ -438,6 +498,13 @@ func c16CmdTimeout() time.Duration {
 	return 25 * time.Second
 }
 
+func c16ConcTimeout() time.Duration {
+	if atomic.LoadInt32(&c16Hangs) > 0 {
+		return 5 * time.Second
+	}
+	return 60 * time.Second
+}
+
 type c16Step struct {
 	line string
 	bit  string
@@ -468,6 +535,9 @@ func c16Exec(scn string, gsGiven bool, lines []string, rec []c16Step, obs0 strin
 				}
 			case "!release":
 				c.mu.Lock()
+				for t := range c.done {
+					c.inGate.Store(t, false) // released: no longer "blocked in the gate"
+				}
 				close(c.gate)
 				c.gate = make(chan struct{})
 				c.mu.Unlock()
@@ -476,6 +546,10 @@ func c16Exec(scn string, gsGiven bool, lines []string, rec []c16Step, obs0 strin
 		} else {
 			st.bit = c.evalBit(ln)
 			cl := c.command(ln)
+			// Scope.SetValue on a container path is C05's domain: ok and error are not told apart
+			if f := strings.Fields(ln); len(f) >= 4 && f[0] == "inject" && strings.Contains(f[2], ".") && (cl == "ok" || cl == "error") {
+				cl = "E"
+			}
 			classes = append(classes, cl)
 			if cl == "HANG" {
 				return o0, out, strings.Join(classes, ",") + " HANG"
@@ -515,10 +589,129 @@ func c16Payload(scn string, gsGiven bool, obs0 string, steps []c16Step) string {
 	return strings.Join(f, " ")
 }
 
+// c16Conc: a thread is suspended in a long straight-line program; goroutine A issues
+// `cont 1 stepin` again and again (waiting for the thread to stop on the next line in
+// between), goroutine B sets and removes a breakpoint without pause (write lock), goroutine
+// C asks for status/describe (read lock). A watchdog bounds the whole exchange: a lock taken
+// twice by one command (a recursive RLock with a writer waiting) or left behind is a HANG.
+func c16Conc() string {
+	var sb strings.Builder
+	for i := 0; i < 400; i++ {
+		sb.WriteString("a := 1\nb := 2\n")
+	}
+	c := &c16Case{gate: make(chan struct{}), done: map[uint64]chan struct{}{}, gsGiven: true}
+	c.gs = scope.NewScope(scope.GlobalScope)
+	c.dbg = interpreter.NewECALDebugger(c.gs)
+	c16Cur.Store(c)
+	c16Cases.Store(c.gs, c)
+	c.dbg.BreakOnStart(true)
+	c.start(1, "prog", sb.String())
+	defer c.end()
+	if !c.quiesce() {
+		return "NOQUIESCE init"
+	}
+	var bad atomic.Value
+	note := func(cl string) {
+		if cl != "ok" {
+			bad.CompareAndSwap(nil, cl)
+		}
+	}
+	// Status hands out the debugger's live breakpoint map: encoding a status result while another
+	// goroutine sets a breakpoint is a fatal "concurrent map iteration and map write" in the Go
+	// runtime (reported as a finding; fixes/C16-status-breakpoints-copy.patch). Status results are
+	// therefore only encoded here when VERIF_C16_ENCODE_STATUS is set.
+	encodeStatus := os.Getenv("VERIF_C16_ENCODE_STATUS") != ""
+	class := func(line string) (cl string) {
+		defer func() {
+			if e := recover(); e != nil {
+				cl = "PANIC"
+			}
+		}()
+		res, err := c.dbg.HandleInput(line)
+		if err != nil {
+			return "error"
+		}
+		if line == "status" && !encodeStatus {
+			return "ok"
+		}
+		if _, jerr := json.Marshal(res); jerr != nil {
+			return "NOJSON"
+		}
+		return "ok"
+	}
+	stop := make(chan struct{})
+	finished := make(chan struct{})
+	var wg sync.WaitGroup
+	wg.Add(2)
+	go func() { // B: writers
+		defer wg.Done()
+		for {
+			select {
+			case <-stop:
+				return
+			default:
+			}
+			note(class("break prog:900"))
+			note(class("rmbreak prog:900"))
+			note(class("disablebreak prog:901"))
+		}
+	}()
+	go func() { // C: readers
+		defer wg.Done()
+		for {
+			select {
+			case <-stop:
+				return
+			default:
+			}
+			note(class("status"))
+			note(class("describe 1"))
+		}
+	}()
+	go func() { // A
+		for i := 0; i < 300; i++ {
+			how := []string{"stepin", "stepover", "STEPOVER", "StepIn"}[i%4]
+			if i >= 296 {
+				how = "stepout" // the thread runs to its end
+			}
+			note(class("cont 1 " + how))
+			// wait until the thread has stopped again (or has run to the end after a step-out)
+			for j := 0; j < 200000; j++ {
+				d, _ := c.dbg.Describe(1).(map[string]interface{})
+				if d == nil || d["threadRunning"] == false || c.isDone(1) {
+					break
+				}
+				time.Sleep(5 * time.Microsecond)
+			}
+		}
+		close(stop)
+		wg.Wait()
+		close(finished)
+	}()
+	select {
+	case <-finished:
+	case <-time.After(c16ConcTimeout()):
+		atomic.AddInt32(&c16Hangs, 1)
+		c.stuck = true
+		return "HANG HANG"
+	}
+	first := "ok"
+	if b := bad.Load(); b != nil {
+		first = "not-ok:" + b.(string)
+	}
+	return first + " " + c.command("status")
+}
+
 func c16Run(payload string) string {
 	f := strings.Split(payload, " ")
 	if len(f) < 3 {
 		return "bad-payload"
+	}
+	if f[0] == "conc" {
+		return c16Conc()
+	}
+	if f[2] == "?" {
+		return "RECORD-TIMEOUT" // the harness could not record this case (counted; not a statement about the code)
 	}
 	var lines []string
 	var rec []c16Step
@@ -579,7 +772,25 @@ func c16Gen(g *Gen) {
 			g.Emit("not-in-this-shard") // never written nor executed: only counts the index
 			return
 		}
-		o0, steps, _ := c16Exec(scn, gsGiven, lines, nil, "")
+		// the recording run is bounded as a whole (it runs outside the per-case time limit)
+		type recorded struct {
+			o0    string
+			steps []c16Step
+		}
+		ch := make(chan recorded, 1)
+		go func() {
+			o0, steps, _ := c16Exec(scn, gsGiven, lines, nil, "")
+			ch <- recorded{o0, steps}
+		}()
+		var o0 string
+		var steps []c16Step
+		select {
+		case r := <-ch:
+			o0, steps = r.o0, r.steps
+		case <-time.After(150 * time.Second):
+			g.Count("record-timeout")
+			o0 = "?"
+		}
 		if len(steps) != len(lines) {
 			// the recording run stopped early (hang): keep the steps it could not observe
 			for i := len(steps); i < len(lines); i++ {
@@ -609,15 +820,46 @@ func c16Gen(g *Gen) {
 	emit("top", true, "extract 1 a dst", "inject 1 nv 1+1", "extract 1 nv dst2", "inject 1 m.k 5")
 	emit("running", true, "breakonstart", "!start2", "cont 2 stepin", "describe 2")
 	emit("two", true, "!release", "status")
-
-	args := c16ArgsSmall
-	if g.Thorough() {
-		args = c16Args
+	for _, scn := range []string{"errmap", "errnest", "errinf"} {
+		emit(scn, true, "status")
+		emit(scn, true, "describe 1")
+		emit(scn, true, "extract 1 v dst", "status", "describe 1")
+		emit(scn, true, "inject 1 nv v", "describe 1")
+		emit(scn, true, "cont 1 resume", "status")
 	}
+	emit("errinf", true, "extract 1 w dst", "describe 1")
+	// a malformed expression handed to inject on a suspended thread, then status (a leaked write lock is a HANG)
+	for _, scn := range []string{"top", "nest2", "errsusp", "two", "bos"} {
+		for _, ex := range []string{"1 +", "1+", "( 1", "a :=", "{ 1", "\"x", "func (", "1 + + 2 )", "nosuch( 1 )", "1 / 0", "[1,2", "x.nan( )", "raise( 1 )"} {
+			g.Count("inject-malformed")
+			emit(scn, true, "inject 1 a "+ex)
+			emit(scn, true, "inject 1 a "+ex, "inject 1 b 1 + 1", "extract 1 a dst")
+		}
+	}
+	// commands from two goroutines at once
+	nconc := 3
+	if g.Thorough() {
+		nconc = 12
+	}
+	for i := 0; i < nconc; i++ {
+		g.Count("concurrent")
+		k++
+		if k%sn != si || k < start {
+			g.Emit("not-in-this-shard")
+		} else {
+			g.Emit(fmt.Sprintf("conc 1 %d", i))
+		}
+	}
+
 	for _, scn := range c16Scenarios {
 		for _, gsGiven := range []bool{true, false} {
 			if !gsGiven && scn != "none" && scn != "top" && scn != "nest2" {
 				continue
+			}
+			errData := scn == "errmap" || scn == "errnest" || scn == "errinf"
+			args := c16ArgsSmall
+			if g.Thorough() && gsGiven && !errData {
+				args = c16Args
 			}
 			for _, cmd := range cmds {
 				g.Count("len0")
@@ -626,12 +868,18 @@ func c16Gen(g *Gen) {
 					g.Count("len1")
 					emit(scn, gsGiven, cmd+" "+a)
 				}
+				if errData && !g.Thorough() {
+					continue // quick tier: the error-data scenarios get the <=1 argument lines and the directed cases
+				}
 				for _, a := range args {
 					for _, b := range args {
 						g.Count("len2")
 						emit(scn, gsGiven, cmd+" "+a+" "+b)
 					}
 				}
+			}
+			if errData && !g.Thorough() {
+				continue
 			}
 			// extract / inject need three arguments: structured product
 			tids := []string{"1", "2", "77", "-1", "x", "99999999999999999999"}
@@ -651,7 +899,7 @@ func c16Gen(g *Gen) {
 	// sampled: 3..4 arguments, and commands after random histories
 	n := 1500
 	if g.Thorough() {
-		n = 40000
+		n = 30000
 	}
 	likely := func() string {
 		switch g.R.Intn(12) {
@@ -788,13 +1036,15 @@ func c16Tool(args []string) int {
 
 func init() {
 	register("C16", &Prop{
-		Timeout:          240 * time.Second,
+		Timeout:          150 * time.Second,
 		NoRestartOnPanic: true,
 		Setup: func() {
 			xPkgOnce.Do(func() { stdlib.AddStdlibPkg("x", "verification harness functions") })
 			if err := stdlib.AddStdlibFunc("x", "gate", &c16Gate{}); err != nil {
 				panic(err)
 			}
+			registerX("inf", func(args []interface{}) (interface{}, error) { return math.Inf(1), nil })
+			registerX("nan", func(args []interface{}) (interface{}, error) { return math.NaN(), nil })
 		},
 		Gen:  c16Gen,
 		Run:  c16Run,
